@@ -192,6 +192,8 @@ class Builder:
                 kwargs["f2"] = self.expr(scope)
                 if self.chance(50):
                     kwargs = {"f2": kwargs["f2"], "f1": kwargs["f1"]}  # same names, other order
+            if self.chance(8):
+                return {"t": "provide", "key": key, "kwargs": kwargs, "c": []}  # a provider with nothing in it
             body = self.nodes(scope, depth + 1, comp_index, 1, where)
             if self.targets(comp_index) and self.chance(60):
                 body.insert(self.integer(0, len(body)), self.comp(scope, depth + 1, comp_index, where))
@@ -406,6 +408,8 @@ class Builder:
             later = [c["name"] for c in self.comps]
             if later and self.chance(25):
                 spec["base"] = self.pick(later)
+                if spec.get("media") and self.chance(35):
+                    spec["media"]["extend"] = False  # this class's Media replaces, not extends, the Media of its bases
             if self.chance(int(self.cfg.get("nonascii_pct", 12))):
                 spec["clsname"] = self.pick(["\u00dcbersicht", "Caf\u00e9", "\u041a\u043e\u043c\u043f"]) + "_%s" % name
         idvars = [v for v, s in spec["data"] if s[0] == "id"]
